@@ -408,7 +408,7 @@ func main() {
 	r.Parallel("author", n, evid.Workers(), func(i int, cs int64) {
 		one(r, rand.New(rand.NewSource(cs)), i, cs)
 	})
-	dir, _ := os.MkdirTemp("", "c07")
+	dir := r.TempDir("c07")
 	defer os.RemoveAll(dir)
 	r.Parallel("wallet", r.N(12, 300), evid.Workers(), func(i int, cs int64) { walletAuthoring(r, dir, cs) })
 	r.Require("wallet-authored-and-measured", 100)
